@@ -280,7 +280,7 @@ class Layout:
         return self.draw(st.sampled_from(options))
 
     def ws(self, need=False, newline_ok=False):
-        opts = [" ", " ", "  ", "\t", " /* c */ ", "/**/ ", " /* multi\n line */ " if newline_ok else " /*x*/ ",
+        opts = [" ", " ", "  ", "\t", "\x0c", " \x0b ", " /* c */ ", "/**/ ", " /* multi\n line */ " if newline_ok else " /*x*/ ",
                 " /** doc **/ ", "/***/ ", " /* a * b / c */ ", " /*/ slash */ ", " /* // not cpp */ "]
         if not need:
             opts += ["", ""]
@@ -637,7 +637,7 @@ def corpus_files():
     return out
 
 
-UNIVERSE_NAMES = ["s1", "s2", "i1", "l1", "l2", "ad", "un", "extra", "S1"]
+UNIVERSE_NAMES = ["s1", "s2", "i1", "l1", "l2", "ad", "un", "extra", "S1", "fl", "b1"]
 
 
 @st.composite
@@ -651,8 +651,13 @@ def universe_entries_s(draw, depth=1):
             k = draw(st.sampled_from(["a", "a", "s"]))
         if nm in ("s1", "s2", "i1", "S1"):
             k = draw(st.sampled_from(["s", "s", "s", "l"]))
+        if nm == "fl":
+            # float settings, including values that differ from each other (and from the default 1.5) by less than 1e-6
+            return [nm, "s", draw(st.sampled_from(["1.5", "2.5", "0.5", "0.5000004", "1.5000001", "1.4999999", "0.0000005", "0", "-0.0000003", "1e3", "bad"]))]
+        if nm == "b1":
+            return [nm, "s", draw(st.sampled_from(["true", "false", "on", "off", "1", "0", "yes", "no", "maybe"]))]
         if k == "s":
-            v = draw(st.sampled_from(["one", "two", "dflt", "7", "0x10", "", "x y", "deep", "t", "One", "ONE", "Dflt", "T"])) if nm != "i1" else draw(st.sampled_from(["7", "8", "0x10", "bad"]))
+            v = draw(st.sampled_from(["one", "two", "dflt", "7", "0x10", "", "x y", "deep", "t", "One", "ONE", "Dflt", "T"])) if nm != "i1" else draw(st.sampled_from(["7", "8", "0x10", "bad", "-7"]))
             return [nm, "s", v]
         if k == "l":
             return [nm, "l", draw(st.lists(st.sampled_from(["x", "y", "z", "", "X", "Y"]), max_size=3))]
@@ -837,6 +842,8 @@ def typed_expect(sub, text):
     try:
         if sub == 2:
             return str(int(text, 0)) if text.strip() == text and text else ("0" if text == "" else None)
+        if sub == 3:
+            return "%.17g" % float(text)
         if sub == 1:
             return {"0": "0", "false": "0", "off": "0", "disabled": "0", "no": "0", "1": "1", "true": "1", "on": "1", "enabled": "1", "yes": "1"}.get(text)
     except ValueError:
